@@ -5,7 +5,9 @@
 EXTENDS RegistryOps, TraceBase
 \* FsRegistry!Listing with the design's (case-sensitive) rule, on logged directory entries [stem, ext, isdir]
 FsSupported == {"gb", "gbk"}
-FsListing(dir) == {dir[i].stem : i \in {j \in 1..Len(dir) : ~dir[j].isdir /\ dir[j].ext \in FsSupported}}
+\* (the registry may be configured with extensions of its own: the event then says which)
+FsListing(dir, exts) == {dir[i].stem : i \in {j \in 1..Len(dir) : ~dir[j].isdir /\ dir[j].ext \in exts}}
+FsExts(e) == IF "exts" \in DOMAIN e THEN {e.exts[i] : i \in 1..Len(e.exts)} ELSE FsSupported
 VARIABLE l
 Known == {"Kanamycin", "Chloramphenicol", "Ampicillin", "Spectinomycin"}
 Dups(s) == \E i, j \in 1..Len(s) : i # j /\ s[i] = s[j]
@@ -19,7 +21,7 @@ RegistryFails(e) ==
   \cup Chk("C20:KnownResistance", \A i \in 1..Len(e.lookups) : e.lookups[i].exc = "" => e.lookups[i].res \in Known)
   \cup Chk("C20:AbsentRaisesKeyError", \A i \in 1..Len(e.absent) : e.absent[i].exc = "KeyError" /\ ~e.absent[i].contains)
   \* a directory: exactly the stems of the regular files with a supported extension
-  \cup (IF e.kind = "filesystem" THEN Chk("C20:DirIgnoresForeign", SeqToSet(e.keys) = FsListing(e.dir)) ELSE {})
+  \cup (IF e.kind = "filesystem" THEN Chk("C20:DirIgnoresForeign", SeqToSet(e.keys) = FsListing(e.dir, FsExts(e))) ELSE {})
   \* a combination: union of the members, first member wins (Registry!AddTo over the logged members)
   \cup (IF e.kind = "combined"
         THEN LET RECURSIVE fold(_, _)
